@@ -130,7 +130,12 @@ type Record interface {
 // Add records the Record as having being located at the given chunk with the given
 // mapping and placement status.
 func (i *Index) Add(r Record, c bgzf.Chunk, mapped, placed bool) error {
-	if !validIndexPos(r.Start(), i.minShift, i.depth) || !validIndexPos(r.End(), i.minShift, i.depth) {
+	// End is exclusive: the last base is at End()-1.
+	last := r.End() - 1
+	if last < r.Start() {
+		last = r.Start()
+	}
+	if !validIndexPos(r.Start(), i.minShift, i.depth) || !validIndexPos(last, i.minShift, i.depth) {
 		return errors.New("csi: attempt to add record outside indexable range")
 	}
 
